@@ -24,11 +24,12 @@ func init() {
 			"precedes PostCopy (unless nil), each at most once, SkipNode from PreCopy reaches neither push nor PostCopy, callback errors are returned unchanged; the transfer does one " +
 			"Fetch and one Push and closes the reader; the traversal performs at most one of OnCopySkipped / node copy / mount-or-copy per node; in the mount path OnMounted and " +
 			"PostCopy exclude each other, PostCopy runs only after the mount loop, the loop continues only when the mount fell back to copying, and the fallback reader calls PreCopy " +
-			"before fetching. The hand-off of the permit around the blocking dispatch/wait (region.End before syncutil.Go and the select, a successful region.Start before storage " +
+			"before fetching; (R6) every PreCopy / PostCopy / OnCopySkipped / OnMounted / MountFrom call of the graph copy is handed the descriptor of the node being handled, " +
+			"an OnCopySkipped error is returned unchanged by the traversal, and the hook wrappers installed by Copy return the wrapped callback's error unchanged. The hand-off of the permit around the blocking dispatch/wait (region.End before syncutil.Go and the select, a successful region.Start before storage " +
 			"effects, the goroutine body always releasing) is C02.R4, and `PostCopy after the successors' terminal notification` is C02.R1 — both are discharged there and not repeated. " +
 			"NOT decided (not applicable to static analysis): measured in-flight counts, `fetched at most once` through user-supplied stores, whether Mount invokes getContent, callback totals at run time.",
 		Run:     runC04,
-		Mutants: c04Mutants,
+		Mutants: append(c04Mutants, c04CovMutants...),
 	})
 }
 
@@ -41,6 +42,7 @@ func runC04(c *Ctx) {
 	c04R3(c)
 	c04R4(c)
 	c04R5(c)
+	runC04Coverage(c)
 }
 
 const (
